@@ -321,7 +321,7 @@ def run_history(schema, ops=None, gen=None, length=0, oracle=True, tmpdir=None):
             if gen is not None:
                 cleared = (op[0] in ('rollback', 'newsession')) or (op[0] == 'commit' and res[0] == 'err')
                 news = r.handles if (cleared or len(r.handles) < before) else r.handles[before:]
-                gen.observe(op, res, [r.ent_index(o) for o in news])
+                gen.observe(op, res, [r.ent_index(o) for o in news], [o._status_ in DEL_STATUSES for o in r.handles])
             out_ops.append(op); results.append(res)
             if sf.is_dump_point(op, res):
                 d = r.dump(); dumps.append(d)
